@@ -690,12 +690,17 @@ impl TypeChecker {
         ctx: TypeCtx,
     ) -> TypeResult<(Option<TyID>, Option<TyID>)> {
         let mut ret = None;
-        for stmt in statements.iter() {
+        // A trailing expression is the value of the block. It is checked once, below - checking
+        // it as a statement as well doubles the work at every level of nesting.
+        let (body, last) = match statements.split_last() {
+            Some((Statement::StatementExpression { value, .. }, body)) => (body, Some(value)),
+            _ => (&statements[..], None),
+        };
+        for stmt in body.iter() {
             let stmt_ret = self.statement(stmt, ctx)?;
             ret = self.unify_option(span, ctx, ret, stmt_ret)?;
         }
-        // We typecheck the last statement twice sometimes, doesn't matter though.
-        let value = if let Some(Statement::StatementExpression { value, .. }) = statements.last() {
+        let value = if let Some(value) = last {
             let (value_ret, value) = self.expression(value, ctx)?;
             ret = self.unify_option(span, ctx, ret, value_ret)?;
             Some(value)
